@@ -12,7 +12,7 @@ use serde_json::json;
 
 pub const RULE: &str = "round trips: legal positions built without the reader (Board::try_from + Game::from_state from a reference position, clocks and move numbers up to 2^31-1): write(g) must equal the reference FEN and parse(write(g)) must equal g in placement, side, rights, e.p. target, halfmove clock, plies and key; canonical FEN texts written by the reference model: write(parse(t)) == t. Hostile text: arbitrary Unicode strings, strings from FEN-shaped regular expressions, and systematic corruptions of valid FENs (a digit +-1, piece inserted/deleted, rank-width pairs that keep the total at 64, 7 or 9 ranks, counters 0 / -1 / 2^31 / 2^32 / 99999999999 / letters, fields missing, duplicated, reordered, tabs, blanks): never a panic; if an independent tokeniser finds a rank whose width is not 8 the result must be Err; if the result is Ok the placement must equal the tokeniser's decoding and write must not panic. Non-trivial = (round trips) position with e.p. target, partial rights or clock > 0; (hostile) text whose first field passes the FEN character set; distinct by text.";
 
-const BIG: [u32; 12] = [0, 1, 2, 49, 50, 99, 100, 101, 150, 5000, 0x7fff_fffe, 0x7fff_ffff];
+const BIG: [u32; 14] = [0, 1, 2, 49, 50, 99, 100, 101, 150, 5000, 0x7fff_fffe, 0x7fff_ffff, 0x8000_0000, 65536];
 
 #[derive(Serialize, Deserialize, Clone, Debug)]
 pub struct RoundTrip {
@@ -135,7 +135,7 @@ fn corrupt(fen_text: &str, t: &mut Tape) -> (String, &'static str) {
         }
         out.into_iter().collect()
     };
-    const COUNTERS: [&str; 14] = ["0", "-1", "2147483647", "2147483648", "4294967295", "4294967296", "99999999999", "x", "1.5", "", "+3", "00", "1e3", "18446744073709551616"];
+    const COUNTERS: [&str; 32] = ["0", "-1", "1", "2", "127", "128", "255", "256", "257", "32767", "32768", "65535", "65536", "65537", "2147483646", "2147483647", "2147483648", "2147483649", "2147483650", "4294967294", "4294967295", "4294967296", "4294967297", "99999999999", "x", "1.5", "", "+3", "00", "1e3", "18446744073709551615", "18446744073709551616"];
     let kind = t.pick(16);
     let label: &'static str;
     match kind {
@@ -323,7 +323,13 @@ pub fn run(run: &mut Run) -> &'static str {
         proptest::sample::select(vec!["-", "K", "Q", "k", "q", "KQ", "kq", "KQkq", "Kk", "Qq", "KQk", "Qkq"]),
         proptest::sample::select(vec!["-", "-", "-", "a3", "e3", "h3", "a6", "d6", "h6", "c4"]),
         prop_oneof![Just(String::new()), (0u32..200).prop_map(|n| format!(" {n}")), any::<u32>().prop_map(|n| format!(" {n}"))],
-        prop_oneof![Just(String::new()), (0u32..300).prop_map(|n| format!(" {n}")), any::<u32>().prop_map(|n| format!(" {n}"))],
+        prop_oneof![
+            Just(String::new()),
+            (0u32..300).prop_map(|n| format!(" {n}")),
+            any::<u32>().prop_map(|n| format!(" {n}")),
+            // neighbours of powers of two, where width and ply-count limits live
+            (proptest::sample::select(vec![7u32, 8, 15, 16, 31, 32, 33, 63, 64]), -2i64..=2).prop_map(|(k, d)| format!(" {}", ((1i128 << k) + d as i128).max(0)))
+        ],
         proptest::option::weighted(0.3, (any::<proptest::sample::Index>(), proptest::sample::select("1289/ pK-wx0".chars().collect::<Vec<char>>()))),
     )
         .prop_map(|(cells, side, rights, ep, half, full, tweak)| {
